@@ -12,6 +12,7 @@ Fixpoint nodupb (l : list op) : bool :=
 Definition inclb (l1 l2 : list op) : bool := forallb (fun a => existsb (op_eqb a) l2) l1.
 
 Definition left_ok_ops (ops : list op) : bool :=
-  nodupb ops && forallb (fun k => inclb ops (map (op_mul k) ops)) ops.
+  nodupb ops && forallb (fun k => inclb ops (map (op_mul k) ops)) ops
+  && existsb (op_eqb op_id) ops && forallb (fun p => Z.abs (mdetZ (fst p)) =? 1) ops.
 Definition left_ok (s : sgrec) : bool :=
   match ops_of (sg_rot s) (sg_trans s) with Some ops => left_ok_ops ops | None => false end.
